@@ -128,6 +128,10 @@ type yProvider struct {
 }
 
 func (p *yProvider) OpenStore(name string) (spi.Store, error) {
+	// opening a store in the provider below may be slow (a remote database): a window / park point of its own
+	p.c.point(true)
+	defer p.c.point(false)
+
 	s, err := p.inner.OpenStore(name)
 	if err != nil {
 		return nil, err
@@ -237,6 +241,9 @@ type Wrap struct {
 // Stack is the in-memory provider with wrappers, innermost first.
 type Stack struct {
 	Wraps []Wrap `json:"wraps,omitempty"`
+	// Raw: the bare in-memory provider without the harness's yielding wrapper (provider-level component: the store
+	// objects GetOpenStores returns must be the handles OpenStore returned)
+	Raw bool `json:"raw,omitempty"`
 }
 
 func (s Stack) String() string {
@@ -299,7 +306,31 @@ type storeInst struct {
 }
 
 func newStoreInst(st Stack, c *ctl) (*storeInst, error) {
+	p, err := buildProvider(st, c)
+	if err != nil {
+		return nil, err
+	}
+
+	s, err := p.OpenStore(storeName)
+	if err != nil {
+		return nil, err
+	}
+
+	// the store configuration goes through every layer (a random-key formattedstore needs it for its key tag)
+	if err := p.SetStoreConfig(storeName, spi.StoreConfiguration{TagNames: []string{"a", "b"}}); err != nil {
+		return nil, err
+	}
+
+	return &storeInst{top: p, store: s}, nil
+}
+
+// buildProvider builds the stack of providers (no store is opened).
+func buildProvider(st Stack, c *ctl) (spi.Provider, error) {
 	var p spi.Provider = &yProvider{inner: mem.NewProvider(), c: c}
+
+	if len(st.Wraps) == 0 && st.Raw {
+		p = mem.NewProvider()
+	}
 
 	for _, wr := range st.Wraps {
 		switch wr.Kind {
@@ -325,17 +356,7 @@ func newStoreInst(st Stack, c *ctl) (*storeInst, error) {
 		}
 	}
 
-	s, err := p.OpenStore(storeName)
-	if err != nil {
-		return nil, err
-	}
-
-	// the store configuration goes through every layer (a random-key formattedstore needs it for its key tag)
-	if err := p.SetStoreConfig(storeName, spi.StoreConfiguration{TagNames: []string{"a", "b"}}); err != nil {
-		return nil, err
-	}
-
-	return &storeInst{top: p, store: s}, nil
+	return p, nil
 }
 
 func (w *storeInst) Close() { _ = w.top.Close() }
